@@ -144,6 +144,16 @@ func (r *Run) Outcome(k string, n int64) {
 	r.mu.Unlock()
 }
 
+// MirrorCounters copies the measured counter src into the coverage keys dst (e.g. choice points
+// explored are the states/transitions of a stateless exploration).
+func (r *Run) MirrorCounters(src string, dst ...string) {
+	r.mu.Lock()
+	defer r.mu.Unlock()
+	for _, d := range dst {
+		r.extra[d] = r.extra[src]
+	}
+}
+
 // FoldOutcomes rewrites the outcome histogram: f maps each label to a new label and to
 // counters to add to the coverage keys (used to carry per-case counters through worker output).
 func (r *Run) FoldOutcomes(f func(label string, n int64) (string, map[string]int64)) {
